@@ -32,8 +32,10 @@ HOSTFORMS = {"name": ("multi.sim.test", "multi.sim.test"), "upper": ("MULTI.Sim.
              "userinfo": ("user:pw@multi.sim.test", "multi.sim.test"), "ipv4": ("10.5.0.1", "10.5.0.1"),
              "ipv6": ("[2001:db8:5::1]", "2001:db8:5::1")}
 PORTS = (None, 1, 80, 443, 8080, 65535)
-PATHS = ("", "/", "/chat", "/a/b", "/p;x", "/p;x=1/q", "/%7Euser/%20", "/a;b;c", "/p;", "/;", "/a;b/c;")
-QUERIES = (None, "y", "a=1&b=2", "q=%3F")
+PATHS = ("", "/", "/chat", "/a/b", "/p;x", "/p;x=1/q", "/%7Euser/%20", "/a;b;c", "/p;", "/;", "/a;b/c;",
+         # characters RFC 3986 allows in a path segment as they are (sub-delims, ':' and '@'): the resource is the URL's path
+         "/a:b@c", "/x,y+z", "/q='(1)'*!$&", "/~user/-._", "/a=b")
+QUERIES = (None, "y", "a=1&b=2", "q=%3F", "next=/lobby/7", "q=what?", "u=ws://x/y?z", "a=b:c@d", "k=v;w", "x=1+2,3", "e=%2F%3f", "s='(*)!$")
 MALFORMED = ("multi.sim.test/p", "ws:/multi.sim.test", "ws:multi.sim.test", "ws:///p", "http://multi.sim.test",
              "https://multi.sim.test/", "ftp://multi.sim.test", "wsx://multi.sim.test", "://multi.sim.test", "ws://",
              "ws://:80/", "", "ws", "WS//multi.sim.test",
@@ -152,7 +154,7 @@ def run(sc, choices=None):
             if port is not None and not 1 <= int(port) <= 65535:
                 raise InvalidScenario("port")
             path, query = sc.get("path", ""), sc.get("query")
-            if (path and not path.startswith("/")) or any(c in path + (query or "") for c in " \r\n#?"):
+            if (path and not path.startswith("/")) or any(c in path for c in " \r\n#?") or any(c in (query or "") for c in " \r\n#"):
                 raise InvalidScenario("path/query")
             if sc["host"] in ("ipv4", "ipv6") and (len(addrs) != 1 or addrs[0]["fam"] != (6 if sc["host"] == "ipv6" else 4)):
                 raise InvalidScenario("literal host has exactly its own address")
